@@ -244,9 +244,18 @@ class GizaYamlDomain:
             fileid.suffix == ".yaml" and get_giza_category(fileid) in self.yaml_mapping
         )
 
-    def delete(self, name: str) -> None:
+    def delete(self, name: str) -> List[n.FileId]:
+        """Remove a file. Returns the files which inherit from it: their pages are now out of date."""
+        dependents: List[n.FileId] = []
         for giza_category in self.yaml_mapping.values():
+            if name in giza_category.dg:
+                dependents.extend(
+                    giza_category.nodes[dependent].path
+                    for dependent in giza_category.dg.predecessors(name)
+                    if dependent != name and dependent in giza_category.nodes
+                )
             try:
                 del giza_category[name]
             except KeyError:
                 pass
+        return dependents
